@@ -56,7 +56,7 @@ Diff(ev, s) ==
        ELSE ""
 ResultAgrees(res) ==
   LET m == Finalise(st, CfS)
-      rich == Run1.route \in {"lines", "staged_lines"} /\ Run1.cfg.deco = "rich" IN
+      rich == Run1.route \in {"lines", "staged_lines", "restaged_lines"} /\ Run1.cfg.deco = "rich" IN
   /\ m.k = res.k
   /\ m.k = "ok" => IF rich THEN m.lines = res.lines
                    ELSE [i \in 1..Len(m.lines) |-> Plain(NoFrags(m.lines[i]))] = [i \in 1..Len(res.lines) |-> Plain(NoFrags(res.lines[i]))]
